@@ -130,3 +130,127 @@ func (o *Once) Do(f func()) {
 		f()
 	}
 }
+
+// Cond replaces sync.Cond.
+type Cond struct {
+	L       sync.Locker
+	real    *sync.Cond
+	waiters []chan struct{}
+}
+
+func NewCond(l sync.Locker) *Cond { return &Cond{L: l, real: sync.NewCond(l)} }
+
+func (c *Cond) Wait() {
+	if cur == nil {
+		c.real.Wait()
+		return
+	}
+	ch := make(chan struct{})
+	c.waiters = append(c.waiters, ch)
+	c.L.Unlock()
+	Recv("cond.Wait", ch)
+	c.L.Lock()
+}
+
+func (c *Cond) Signal() {
+	if cur == nil {
+		c.real.Signal()
+		return
+	}
+	if len(c.waiters) > 0 {
+		ch := c.waiters[0]
+		c.waiters = c.waiters[1:]
+		Close("cond.Signal", ch)
+	}
+}
+
+func (c *Cond) Broadcast() {
+	if cur == nil {
+		c.real.Broadcast()
+		return
+	}
+	for _, ch := range c.waiters {
+		Close("cond.Broadcast", ch)
+	}
+	c.waiters = nil
+}
+
+// Map replaces sync.Map: under the simulator only one goroutine runs at a
+// time, so a plain map with deterministic (insertion) iteration order suffices.
+type Map struct {
+	real sync.Map
+	m    map[interface{}]interface{}
+	keys []interface{}
+}
+
+func (m *Map) Load(k interface{}) (interface{}, bool) {
+	if cur == nil {
+		return m.real.Load(k)
+	}
+	v, ok := m.m[k]
+	return v, ok
+}
+
+func (m *Map) Store(k, v interface{}) {
+	if cur == nil {
+		m.real.Store(k, v)
+		return
+	}
+	if m.m == nil {
+		m.m = map[interface{}]interface{}{}
+	}
+	if _, ok := m.m[k]; !ok {
+		m.keys = append(m.keys, k)
+	}
+	m.m[k] = v
+}
+
+func (m *Map) LoadOrStore(k, v interface{}) (interface{}, bool) {
+	if cur == nil {
+		return m.real.LoadOrStore(k, v)
+	}
+	if old, ok := m.m[k]; ok {
+		return old, true
+	}
+	m.Store(k, v)
+	return v, false
+}
+
+func (m *Map) LoadAndDelete(k interface{}) (interface{}, bool) {
+	if cur == nil {
+		return m.real.LoadAndDelete(k)
+	}
+	v, ok := m.m[k]
+	m.Delete(k)
+	return v, ok
+}
+
+func (m *Map) Delete(k interface{}) {
+	if cur == nil {
+		m.real.Delete(k)
+		return
+	}
+	if _, ok := m.m[k]; ok {
+		delete(m.m, k)
+		for i, x := range m.keys {
+			if x == k {
+				m.keys = append(m.keys[:i:i], m.keys[i+1:]...)
+				break
+			}
+		}
+	}
+}
+
+func (m *Map) Range(f func(k, v interface{}) bool) {
+	if cur == nil {
+		m.real.Range(f)
+		return
+	}
+	for _, k := range append([]interface{}(nil), m.keys...) {
+		if v, ok := m.m[k]; ok {
+			if !f(k, v) {
+				return
+			}
+		}
+	}
+}
